@@ -172,6 +172,9 @@ class Stats:
             self.nontrivial.add(dhash(desc))
             if len(self.samples) < 3:
                 self.samples.append(desc)
+            elif self.evaluations in (15, 40, 120):
+                # Hypothesis starts with minimal examples: replace them by later, more typical non-trivial cases
+                self.samples[(self.evaluations // 15) % 3] = desc
         elif not self.samples:
             self.samples.append(desc)
         for lab in engine.labels(desc):
